@@ -345,6 +345,50 @@ def h_cond(e, family, lo, hi, wrap='none'):
         e.nontriv()
 
 
+ASSIGN_TESTS = {
+    'ifnum>': ('\\ifnum\\ra>4 A\\else B\\fi', lambda v: 'A' if v > 4 else 'B'),
+    'ifnum= literal first': ('\\ifnum 5=\\ra A\\else B\\fi', lambda v: 'A' if v == 5 else 'B'),
+    'ifodd': ('\\ifodd\\ra A\\else B\\fi', lambda v: 'A' if v % 2 else 'B'),
+    'ifcase': ('\\ifcase\\ra A\\or B\\or C\\or D\\else E\\fi', lambda v: 'ABCD'[v] if v < 4 else 'E'),
+    'ifcase nested': ('\\ifcase\\ra A\\or \\ifnum\\ra=1 B\\else b\\fi\\or C\\fi', lambda v: {0: 'A', 1: 'B', 2: 'C'}.get(v, '')),
+    'macro number': ('\\def\\n{\\ra}\\ifnum\\n<3 A\\else B\\fi', lambda v: 'A' if v < 3 else 'B'),
+    'counter': ('\\setcounter{cnt}{\\ra}\\ifnum\\value{cnt}>6 A\\else B\\fi', lambda v: 'A' if v > 6 else 'B'),
+}
+TERMINATORS = {'blank': ' ', 'relax': '\\relax ', 'newline': '\n', 'two blanks': '  '}
+
+
+def h_assign(e, test, term, wrap):
+    """a register is assigned (literal ended by a blank / \\relax / end of line) and the very next thing is a conditional on it:
+    the test sees the new value"""
+    src_test, want = ASSIGN_TESTS[test]
+    doc = TeXDocument()
+    ctx = doc.context
+    ctx.newcount('ra')
+    ctx.newcounter('cnt')
+    d = e.char('d', 48, 57)
+    v = api.ord_(d) - 48
+    vv = e.concretize(v.z) if e.symbolic and hasattr(v, 'z') else v
+    parts = ['\\ra=', d, TERMINATORS[term], src_test, ' Z']
+    if wrap == 'group':
+        parts = ['{'] + parts + ['}']
+    elif wrap == 'macro':
+        parts = ['\\def\\mac{'] + parts + ['}\\mac ']
+    chars = []
+    for p in parts:
+        chars.extend(api.chars(p))
+    tex = TeX(doc)
+    tex.input(Src(chars))
+    try:
+        got = tex.parse().textContent
+    except (IndexError, KeyError, ValueError, TypeError, AttributeError) as ex:
+        e.fail_exception(ex, 'raises:%s' % type(ex).__name__)
+        return
+    got = ''.join(str(got).split())
+    e.observe(got)
+    e.check(got == want(vv) + 'Z', 'after \\ra=%s the conditional %s yields %r, TeX selects %r' % (vv, src_test, got, want(vv) + 'Z'), 'branch-text:after-assignment')
+    e.nontriv()
+
+
 def jobs(tier, seed):
     J = []
 
@@ -354,6 +398,10 @@ def jobs(tier, seed):
             J.append(dict(harness='h_cond', params=dict(family=family, lo=lo, hi=min(n, lo + chunk), wrap=wrap),
                           label='%s[%d:%d]%s' % (family, lo, min(n, lo + chunk), '' if wrap == 'none' else ' ' + wrap)))
     fam('k1', 8)
+    for test in ASSIGN_TESTS:
+        for term in TERMINATORS:
+            for wrap in (('none',) if tier == 'quick' else ('none', 'group', 'macro')):
+                J.append(dict(harness='h_assign', params=dict(test=test, term=term, wrap=wrap), label='assignment then %s (%s, %s)' % (test, term, wrap), no_twin=True))
     if tier == 'quick':
         fam('k2', 12, stride=2)
         fam('k1', 8, wrap='macro')
